@@ -236,6 +236,19 @@ def run_nonmarkov_sis(spec, props=("C13",)):
                     obs = observed_events(out, nodes)
                     if obs != want:
                         A.add(V("C13", fn, cls, "events", "history %r differs from the plain semantics %r (rules %r)" % (obs, want, recs), pre, obs, want))
+                    else:
+                        # the per-node histories say the same thing (every status change of every node, nothing else)
+                        ref_h = {v: ([tmin], ["I" if v in I0 else "S"]) for v in nodes}
+                        for (t_, kind, src, v) in sorted(hist, key=lambda e: e[0]):
+                            if kind == "inf" and src is None:
+                                continue
+                            ref_h[v][0].append(t_); ref_h[v][1].append("I" if kind == "inf" else "S")
+                        got_h = mon.hist_of(out, nodes)
+                        for v in nodes:
+                            g = (list(got_h[v][0]), list(got_h[v][1]))
+                            if g != ref_h[v]:
+                                A.add(V("C13", fn, cls, "node_history", "history of node %r is %r, the plain semantics give %r" % (v, g, ref_h[v]), pre, g, ref_h[v]))
+                                break
                     # every node history must end consistent with the event list
                 else:
                     rows = arrays_from_events(n, I0, tmin, sorted(hist, key=lambda e: e[0]))
